@@ -21,10 +21,26 @@ const P: &str = "C07";
 
 thread_local! {
     static ADDRS: Vec<(&'static str, Address)> = make_addresses();
+    static ADDRS_EXT: Vec<(&'static str, Address)> = make_addresses_ext();
 }
 
 fn addresses() -> Vec<(&'static str, Address)> {
     ADDRS.with(|a| a.clone())
+}
+
+/// the helpers that size an output for a placeholder address first are also given the addresses
+/// that are longer than any placeholder: a pointer address with maximal naturals (59 bytes), one
+/// just over the base-address length, and malformed addresses (any length; obtained by decoding)
+fn addresses_ext() -> Vec<(&'static str, Address)> {
+    ADDRS_EXT.with(|a| a.clone())
+}
+fn make_addresses_ext() -> Vec<(&'static str, Address)> {
+    let mut v = make_addresses();
+    v.push(("pointer59", PointerAddress::new(1, &cred_key(0), &Pointer::new_pointer(&bn(u64::MAX), &bn(u64::MAX), &bn(u64::MAX))).to_address()));
+    v.push(("pointer58", PointerAddress::new(0, &cred_script(1), &Pointer::new_pointer(&bn(u64::MAX), &bn(u64::MAX), &bn(1u64 << 62))).to_address()));
+    v.push(("malformed58", MalformedAddress::new_unchecked(vec![0xf1; 58])));
+    v.push(("malformed90", MalformedAddress::new_unchecked(vec![0x8f; 90])));
+    v
 }
 
 fn make_addresses() -> Vec<(&'static str, Address)> {
@@ -261,7 +277,7 @@ fn sc_min_ada(ctx: &mut Ctx) {
 /// TransactionOutputBuilder ... with_asset_and_min_required_coin_by_utxo_cost: the output it
 /// creates must meet the bound for the address it is really for.
 fn sc_output_builder(ctx: &mut Ctx) {
-    let addrs = addresses();
+    let addrs = addresses_ext();
     let ai = ctx.choose_free(addrs.len());
     let a = 1 + ctx.choose_free(N_ASSETS - 1);
     let d = ctx.choose_free(4);
